@@ -197,6 +197,45 @@ fn check_estimate_static(ctx: &Ctx, st: &mut Stats) {
     }
 }
 
+/// Wall-clock dimension: with a known upload time the estimate is a function of the upload time
+/// alone; the thread's wall clock is moved around it (before, at, after, far before, far after).
+fn check_estimate_clock(ctx: &Ctx, st: &mut Stats) {
+    let mut filled = ChunkTimingStats::new();
+    for wf in [1u8, 4] {
+        for ch in [0u8, 2] {
+            for half in [true, false] {
+                let cuts = vec![(half, wf, ch); 10];
+                let m = vcp_message(&cuts);
+                for cut in 0..10 {
+                    filled.add_timing(characteristics(&m, cut, ChunkType::Intermediate), Duration::milliseconds(5_000), 2);
+                }
+                for prev in [1usize, 2, 30, 54, 55] {
+                    let id = chunk(&format!("{:03}", prev), true);
+                    for (mode, stats) in [("none", None), ("filled", Some(&filled))] {
+                        let base = crate::clock::with_thread_now_ms(t0().timestamp_millis() - 7 * 86_400_000, || guarded(|| estimate_next_chunk_time(&id, &m, stats)));
+                        for delta in crate::props::c08::CLOCK_DELTAS_MS.iter().copied().chain([-20 * 365 * 86_400_000i64, 80 * 365 * 86_400_000i64]) {
+                            st.evaluations += 1;
+                            let now_ms = t0().timestamp_millis() + delta;
+                            let got = crate::clock::with_thread_now_ms(now_ms, || guarded(|| estimate_next_chunk_time(&id, &m, stats)));
+                            let wit = || json!({"op": "estimate_clock", "waveform": wf, "channel": ch, "half_degree": half, "previous": prev, "stats": mode, "now_ms": now_ms});
+                            if got != base {
+                                ctx.fail("clock:estimate_depends_on_wall_clock", || format!("prev {prev} wf {wf} ch {ch} stats {mode}, wall clock at upload time {delta:+} ms: {:?}; with the wall clock a week earlier: {:?}", got, base), wit);
+                            }
+                            if let Caught::Ret(Some(g)) = &got {
+                                if *g < t0() {
+                                    ctx.fail("estimate:earlier_than_previous_upload", || format!("prev {prev}, wall clock at upload time {delta:+} ms: {g:?}"), wit);
+                                }
+                            }
+                        }
+                    }
+                }
+                st.nontrivial(&[b'c', wf, ch, half as u8]);
+            }
+        }
+    }
+    st.count("wall_clock_relative_estimates", 1);
+}
+
 // ---- rolling-window model ------------------------------------------------------------------
 
 const SAMPLES: [(i64, usize); 3] = [(0, 1), (7_000, 2), (60_000, 5)];
@@ -385,6 +424,7 @@ pub fn run(ctx: &'static Ctx) -> (&'static str, Value, Vec<&'static str>) {
     
     let mut s2 = Stats::new();
     check_estimate_static(ctx, &mut s2);
+    check_estimate_clock(ctx, &mut s2);
     
     // rolling window: stateright over histories
     let configs: Vec<(u8, usize)> = if thorough { vec![(1, 13), (2, 7), (3, 6)] } else { vec![(1, 11), (2, 5), (3, 4)] };
@@ -473,6 +513,7 @@ pub fn replay(ctx: &'static Ctx, case: &Value) {
             let cuts: Vec<(bool, u8, u8)> = halves.iter().enumerate().map(|(i, h)| (*h, 1 + (i % 5) as u8, (i % 3) as u8)).collect();
             check_mapping(ctx, &cuts, 200, &mut st);
         }
+        Some("estimate_clock") => check_estimate_clock(ctx, &mut st),
         _ => check_estimate_static(ctx, &mut st),
     }
 }
